@@ -297,19 +297,10 @@ def prepare(job, workdir, rng_cls):
     mod = load_module(workdir, d['src'])
     job.modname = mod.__name__
     Top = getattr(mod, d.get('top', 'Top'))
-    # 'sim_src' (optional): the same design WITHOUT the module-level names that equal loop variables.  PyMTL's
-    # own elaboration resolves such an index name to the module-level value (ComponentLevel2 read/write sets:
-    # narrower sets -> possibly a wrong schedule), which is outside this property; the reference simulation
-    # runs on the text without them, the translation on the text with them.
-    TopSim = Top
-    if d.get('sim_src'):
-      mod_s = load_module(workdir, d['sim_src'])
-      job.modname_sim = mod_s.__name__
-      TopSim = getattr(mod_s, d.get('top', 'Top'))
   except Exception as e:
     job.stage, job.info = 'gen-error', f'{type(e).__name__}: {e}'[:300]; return
   try:
-    top = TopSim(); top.elaborate()
+    top = Top(); top.elaborate()
     top2 = Top(); top2.elaborate()
   except Exception as e:
     job.stage, job.info = 'elab-error', f'{type(e).__name__}: {str(e)[:300]}'; return
@@ -317,7 +308,6 @@ def prepare(job, workdir, rng_cls):
   if 'cycles' in d: job.cycles = d['cycles']
   else: job.cycles = gen_cycles(rng_cls(job.cyc_seed), job.ports, job.ncycles)
   job.case = {'label': d['label'], 'backend': job.be, 'src': d['src'], 'cycles': job.cycles}
-  if d.get('sim_src'): job.case['sim_src'] = d['sim_src']
   try:
     job.pytrace = simulate_pymtl(top, job.ports, job.cycles)
   except Exception as e:
@@ -644,11 +634,11 @@ def run_batch(ck, be, designs, stats, ncycles, nstores, tie=True, keep=False):
   if not keep:
     # release the elaborated components and the generated modules (thousands of designs per run)
     for j in jobs:
-      for mn in (getattr(j, 'modname', None), getattr(j, 'modname_sim', None)):
-        if mn:
-          sys.modules.pop(mn, None)
-          try: os.remove(os.path.join(ck.workdir, mn + '.py'))
-          except OSError: pass
+      mn = getattr(j, 'modname', None)
+      if mn:
+        sys.modules.pop(mn, None)
+        try: os.remove(os.path.join(ck.workdir, mn + '.py'))
+        except OSError: pass
       j.top2 = j.parsed = j.ptop = j.mapped = j.pytrace = j.ports = None
     import gc; gc.collect()
   return jobs
